@@ -15,7 +15,14 @@
     independent oracle searches a check-free cycle through the host.
 (e) host <-> guest recursion (guest -> imported Go function -> api.Function.Call -> guest ...): shapes x causes x
     arrival moments x engines in watchdogged child processes, judged by the number of nesting levels entered after
-    the cause (a safety net in the host callback stops a recursion that is not stopped), exit code, module closed."""
+    the cause (a safety net in the host callback stops a recursion that is not stopped), exit code, module closed.
+(f) sibling calls (coq/Engine/Watcher.v): 2-3 concurrent calls from different goroutines on one instance (and on two
+    instances of one runtime) x context relation (same / WithValue child / WithCancel child / distinct) x shape (which
+    call starts first, which ends before / after the cause) x cause x engine. Every case is one schedule of the
+    interleaving semantics of Watcher.v; the oracle is the property; the schedule is also run through the model (one
+    watcher per call: nobody stranded; one watcher per Done channel without a reference count: the seeded rule C07d).
+(g) loops in an IMPORTED module N call levels below the import boundary (N = 0, 1, 2; call, call_indirect, tail-call
+    cycle) x cause x engine, compared with `check_observes` of Watcher.v (which module's closed word a check reads)."""
 import bisect, json, subprocess, threading, time
 from vcheck import *
 
@@ -660,6 +667,260 @@ def host_model_vs_behaviour(ck, verdict, hres, dist):
 
 
 
+# ------------------------------------------------------------------------------------ sibling calls
+def run_cases(binp, mode, engine, quick, bound_ms, results, par=4):
+    """modes whose child cleans up after a hang by itself (siblings, imported): one child per engine, JSON lines"""
+    rc, out = sh([binp, "-mode", mode, "-list"] + (["-quick"] if quick else []), timeout=60)
+    ncases = sum(1 for l in out.split("\n") if l.startswith("{"))
+    cmd = [binp, "-mode", mode, "-engine", engine, "-bound", str(bound_ms), "-par", str(par)] + (["-quick"] if quick else [])
+    # every case may run into the watchdog, `par` at a time; cleanup after a hang up to 3 s per call
+    rc, out = sh(cmd, timeout=180 + (ncases / par + 1) * (4 * bound_ms / 1000 + 12))
+    got = []
+    for l in out.split("\n"):
+        if l.startswith("{"):
+            try: got.append(json.loads(l))
+            except ValueError: pass
+    results.extend(got)
+    if rc != 0 or len(got) != ncases:
+        results.append({"crash": True, "engine": engine, "rc": rc, "reported": len(got), "expected": ncases, "tail": out[-1500:]})
+
+
+def sib_concerned(d):
+    """the instances the cause concerns: close: the target; cancel / deadline: every instance with a call in flight whose
+    context is c0 or derived from it"""
+    if d["cause"] == "close":
+        return {d["target"]}
+    return {c["inst"] for c in d["calls"] if c["in_flight_at_cause"] and c["ctx"] != "c1"}
+
+
+def sib_oracle(d):
+    """the property, on the observations of one case: (kind, call) of the first failure or None"""
+    if d.get("setup"):
+        return ("setup", None)
+    if d.get("void"):
+        return None
+    want = "exit:%d" % d["want"]
+    conc = sib_concerned(d)
+    worst = None
+    for c in d["calls"]:
+        cl = c["class"]
+        why = None
+        if cl.startswith("other:") and "recovered by wazero" in cl or cl.startswith("other:PANIC"):
+            why = "go-panic-in-call"
+        elif not c["in_flight_at_cause"]:
+            if cl != "nil":
+                why = "sibling-disturbed"           # it finished before the cause
+        elif c["inst"] in conc:
+            if not c["returned"] or cl == "hang":
+                why = "hang"
+            elif cl != want:
+                why = "wrong-outcome"
+        else:
+            if c["kind"] == "finite" and cl != "nil" or c["kind"] == "loop" and cl != "running":
+                why = "sibling-disturbed"           # its module is not concerned by the cause
+        if why and (worst is None or why == "hang"):
+            worst = (why, c)
+    if worst:
+        return worst
+    for inst in sorted(conc):
+        if not d["closed"].get(inst):
+            return ("module-not-closed", {"inst": inst})
+    if d.get("hard_hang"):
+        return ("hang", None)
+    return None
+
+
+def coq_event(e):
+    if e[0] == 0: return "EEnter %d %d" % (e[1], e[2])
+    if e[0] == 1: return "EReturn %d" % e[1]
+    if e[0] == 2: return "EDone %d %s" % (e[1], "CtxCanceled" if e[2] == 1 else "CtxDeadline")
+    return "EClose %d%%Z" % e[1]
+
+
+def sib_model(ck, cases):
+    """every executed schedule through Watcher.v, per instance: {(case index, inst): (stranded by PerCall, stranded by SharedNoRefcount)}"""
+    keys, items = [], []
+    for i, d in enumerate(cases):
+        if d.get("setup") or d.get("void") or not d.get("events"):
+            continue
+        for inst in sorted(set(c["inst"] for c in d["calls"])):
+            evs = [coq_event(e) for e, ei in zip(d["events"], d["ev_inst"]) if ei in ("", inst)]
+            keys.append((i, inst))
+            items.append("{| sb_calls := %d; sb_events := [%s] |}" % (len(d["calls"]), "; ".join(evs)))
+    res = {}
+    SH = 90     # the codes of sibmismatches hold the case index in two decimal digits below 100000
+    for s0 in range(0, len(items), SH):
+        v = ("From Coq Require Import List ZArith.\nFrom Verif Require Import Engine.TermCheck Engine.TermHost Engine.Watcher.\nImport ListNotations.\nOpen Scope nat_scope.\n"
+             "Definition cases : list sibcase := [\n" + ";\n".join(items[s0:s0 + SH]) + "].\n"
+             "Definition M := Eval vm_compute in sibmismatches 0%Z cases.\nPrint M.\n")
+        rc, o = coq_eval("c07_sib%d" % s0, v, timeout=600)
+        lst = parse_zlist(o, "M")
+        if rc != 0 or lst is None:
+            ck.violation("model-eval", {"kind": "model-eval", "mode": "siblings"}, {"rc": rc, "out": o[-2000:]}, no_input=True)
+            return None
+        for code in lst:
+            seeded, code = divmod(code, 100000)
+            j, k = divmod(code, 1000)
+            r = res.setdefault(keys[s0 + j], ([], []))
+            r[1 if seeded else 0].append(k)
+    return res
+
+
+def siblings(ck, binp, tier, dist):
+    quick = tier == "quick"
+    bound = 8000 if quick else 12000
+    res, ths = {"interp": [], "compiler": []}, []
+    for eng in res:
+        th = threading.Thread(target=run_cases, args=(binp, "siblings", eng, quick, bound, res[eng]))
+        th.start(); ths.append(th)
+    for th in ths: th.join()
+    sd = dist.setdefault("siblings", {"cases": 0, "calls": 0, "by_shape": {}, "by_context_relation": {}, "by_topology": {}, "by_cause": {}, "by_engine": {},
+                                      "call_outcomes": {}, "in_flight_at_cause": 0, "finished_before_cause": 0, "void_deadline_attempts": 0, "max_attempts": 0,
+                                      "max_latency_ms": 0.0, "bound_ms": bound, "model_schedules": 0, "model_seeded_rule_strands": 0})
+    allres, shown = [], set()
+    for eng, rs in res.items():
+        for d in rs:
+            if d.get("crash"):
+                ck.violation("harness-crash", {"kind": "crash", "mode": "siblings", "engine": eng}, d, no_input=True)
+                continue
+            allres.append(d)
+    model = sib_model(ck, allres)
+    for i, d in enumerate(allres):
+        eng = d["engine"]
+        sd["cases"] += 1
+        for k, f in (("by_shape", "shape"), ("by_context_relation", "ctx"), ("by_topology", "topology"), ("by_cause", "cause"), ("by_engine", "engine")):
+            sd[k][d[f]] = sd[k].get(d[f], 0) + 1
+        sd["max_attempts"] = max(sd["max_attempts"], d.get("attempts", 1))
+        sd["void_deadline_attempts"] += d.get("attempts", 1) - 1 + (1 if d.get("void") else 0)
+        for c in d["calls"]:
+            sd["calls"] += 1
+            oc = "%s/%s" % (c["kind"], c["class"].split(":")[0])
+            sd["call_outcomes"][oc] = sd["call_outcomes"].get(oc, 0) + 1
+            sd["in_flight_at_cause" if c["in_flight_at_cause"] else "finished_before_cause"] += 1
+            sd["max_latency_ms"] = max(sd["max_latency_ms"], c.get("latency_ms", 0))
+        mdl = {}
+        if model is not None:
+            for inst in sorted(set(c["inst"] for c in d["calls"])):
+                if (i, inst) in model or d.get("events"):
+                    pc, sn = model.get((i, inst), ([], []))
+                    mdl[inst] = {"one_watcher_per_call_strands": pc, "one_watcher_per_done_channel_without_refcount_strands": sn}
+                    sd["model_schedules"] += 1
+                    sd["model_seeded_rule_strands"] += 1 if sn else 0
+                    if pc and "model-strands" not in shown:     # excluded by C07_every_inflight_call_is_watched
+                        shown.add("model-strands")
+                        ck.violation("watcher-model-strands-call", {"kind": "watcher-model-strands-call"}, {"case": d, "calls": pc}, no_input=True)
+        why = sib_oracle(d)
+        d["_why"] = why
+        if why is None:
+            continue
+        kind, c = why
+        if kind == "setup":
+            sig = {"kind": "harness-setup", "engine": eng, "mode": "siblings"}
+        elif kind == "hang":
+            sig = {"kind": "hang", "shape": d["shape"], "family": "siblings", "engine": eng}
+        elif kind == "go-panic-in-call":
+            # internal/wasm, both engines alike: one class
+            sig = {"kind": kind, "family": "siblings"}
+        elif kind == "module-not-closed":
+            sig = {"kind": kind, "family": "siblings", "cause": d["cause"], "engine": eng}
+        else:
+            sig = {"kind": kind, "family": "siblings", "cause": d["cause"], "engine": eng}
+        key = json.dumps(sig, sort_keys=True)
+        if key in shown: continue
+        shown.add(key)
+        strands = {inst: m["one_watcher_per_done_channel_without_refcount_strands"] for inst, m in mdl.items()}
+        ck.violation(sig["kind"], sig, {"case": d, "failing_call": c, "schedule": d["schedule"],
+                                      "expected": "every call in flight when the cause arrives on a module the cause concerns returns within %d ms with *sys.ExitError code %d and that module "
+                                                  "IsClosed() afterwards; calls that returned before the cause returned nil; calls on a module the cause does not concern keep running" % (bound, d["want"]),
+                                      "model": {"Watcher.v on this schedule": mdl,
+                                                "diagnosis": ("the schedule is one on which the ownership rule 'one watcher per Done channel, stopped by the return of the call that spawned it, no reference count' "
+                                                              "(C07_shared_watcher_without_refcount_refuted) leaves call(s) %s in flight with a done context and no watcher" % strands)
+                                                if kind == "hang" and any(strands.values()) else None},
+                                      "replay": "h_c07 -mode siblings -engine %s -only %d%s  (module bytes: case.wasm, schedule: case.schedule)" % (eng, d["idx"], " -quick" if quick else "")},
+                     no_input=(kind == "setup"))
+    return allres
+
+
+# ------------------------------------------------------------------------------------ loops in an imported module
+IMPORT_MODELS = {"interp": ["SelCaller", "SelBoth", "SelEntry"], "compiler": ["SelEntry", "SelBoth"]}
+
+
+def imported(ck, binp, tier, dist):
+    quick = tier == "quick"
+    bound = 5000 if quick else 10000
+    res, ths = {"interp": [], "compiler": []}, []
+    for eng in res:
+        th = threading.Thread(target=run_cases, args=(binp, "imported", eng, quick, bound, res[eng]))
+        th.start(); ths.append(th)
+    for th in ths: th.join()
+    idd = dist.setdefault("imported_loops", {"cases": 0, "by_shape": {}, "by_cause": {}, "by_engine": {}, "by_depth": {}, "outcomes": {}, "max_latency_ms": 0.0, "bound_ms": bound,
+                                             "check_reads": {}})
+    allres, shown = [], set()
+    for eng, rs in res.items():
+        per = []
+        for d in rs:
+            if d.get("crash"):
+                ck.violation("harness-crash", {"kind": "crash", "mode": "imported", "engine": eng}, d, no_input=True)
+                continue
+            allres.append(d); per.append(d)
+            idd["cases"] += 1
+            for k, f in (("by_shape", "shape"), ("by_cause", "cause"), ("by_engine", "engine"), ("by_depth", "depth")):
+                idd[k][str(d[f])] = idd[k].get(str(d[f]), 0) + 1
+            oc = d["class"].split(":")[0]
+            idd["outcomes"][eng + "/" + oc] = idd["outcomes"].get(eng + "/" + oc, 0) + 1
+            idd["max_latency_ms"] = max(idd["max_latency_ms"], d.get("latency_ms", 0))
+            why = behaviour_oracle(d)
+            d["_why"] = why
+            if why is None:
+                continue
+            if why == "setup":
+                sig = {"kind": "harness-setup", "engine": eng, "mode": "imported"}
+            elif why == "hang":
+                sig = {"kind": "hang", "shape": d["shape"], "family": "imported_loop", "engine": eng}
+            else:
+                sig = {"kind": why, "family": "imported_loop", "cause": d["cause"], "engine": eng}
+            key = json.dumps(sig, sort_keys=True)
+            if key in shown: continue
+            shown.add(key)
+            ck.violation(sig["kind"], sig, {"case": d, "schedule": d["schedule"],
+                                          "expected": "return within %d ms of the cause with *sys.ExitError code %d and A.IsClosed()" % (bound, d.get("want", 0)),
+                                          "model": "Watcher.check_observes: a check executing in B.f1 reads the closed word of " +
+                                                   ("the module of the CALLING function (SelCaller): B for depth >= 1, which nobody closes" if eng == "interp" else "the entry module (SelEntry)") +
+                                                   "; C07_check_reads_entry_module",
+                                          "replay": "h_c07 -mode imported -engine %s -only %d%s  (module bytes: case.wasm (A), case.wasm_imported (B))" % (eng, d["idx"], " -quick" if quick else "")},
+                         no_input=(why == "setup"))
+        # which module's word the checks of this engine read: the model's three rules against what the engine did
+        ok = [d for d in per if not d.get("setup")]
+        if not ok:
+            continue
+        defs = []
+        items = "; ".join("(%d, %s)" % (d["depth"], "true" if d["returned"] else "false") for d in ok)
+        for m in IMPORT_MODELS[eng]:
+            defs.append("Definition M_%s := Eval vm_compute in imismatches %s 0%%Z [%s].\nPrint M_%s.\n" % (m, m, items, m))
+        v = ("From Coq Require Import List ZArith.\nFrom Verif Require Import Engine.TermCheck Engine.TermHost Engine.Watcher.\nImport ListNotations.\nOpen Scope nat_scope.\n" + "".join(defs))
+        rc, o = coq_eval("c07_imp_" + eng, v, timeout=300)
+        fits, first = [], None
+        for m in IMPORT_MODELS[eng]:
+            lst = parse_zlist(o, "M_" + m)
+            if rc != 0 or lst is None:
+                ck.violation("model-eval", {"kind": "model-eval", "mode": "imported"}, {"rc": rc, "out": o[-2000:]}, no_input=True)
+                fits = None
+                break
+            if not lst:
+                fits.append(m)
+            elif first is None:
+                first = ok[lst[0]]
+        if fits is None:
+            continue
+        idd["check_reads"][eng] = fits
+        if not fits:
+            # neither the rule of the code now nor a rule that reads the entry module: hangs are reported above; a pure divergence here
+            ck.violation("imported-loop-model-differs", {"kind": "imported-loop-model-differs", "engine": eng},
+                         {"case": first, "meaning": "the engine stops / does not stop imported loops in a pattern that none of SelCaller, SelEntry, SelBoth of Watcher.v predicts"},
+                         no_input=not any(d.get("_why") for d in ok))
+    return allres
+
+
 def run(tier, seed):
     ck = Check("C07", tier, seed)
     ck.trusted += ["coq/Engine/TermCheck.v: the control-graph abstraction (call = push, return = pop, tail call = replace; a host function is one node that may re-enter "
@@ -667,11 +928,15 @@ def run(tier, seed):
                    "coq/Engine/TermHost.v: host nodes, call entry = an edge carrying its checks on a fresh call engine (segment of the continuation stack), and what each check reads "
                    "(ctx.Err() of the call's context / the closed word); tied by the entry probe (probe_model vs both engines) and by judging the engine graphs with the probed entry checks",
                    "harness/c07 overlay files (read-only accessors inside package interpreter / frontend / wazevo / wasm / wazero) and checks/c07.py (graph construction from the dumps, independent cycle oracle)",
+                   "coq/Engine/Watcher.v: the interleaving semantics of concurrent calls on one module (entry, return, context done, watcher step, close), the two watcher policies and the "
+                   "rule for which module's closed word a check reads; tied by executing fixed schedules on real instances (siblings) and by the imported-loop family",
                    "tools/go2coq for the exit-code and flag constants (sys.ExitCodeContextCanceled, ExitCodeDeadlineExceeded, exitCodeFlag*)"]
     ck.assumptions += ["promptness is measured, not proved: goroutine scheduling, the watcher goroutine and the Go runtime are outside the model",
                        "the compiler's check placement is verified on the SSA (after the frontend and after the SSA passes); that the backend keeps the check calls is observed behaviourally only",
                        "the bound of C07_checker_sound is exponential in the stack ceiling and tight: recursion without loops is stopped only by stack overflow or termination (open finding: tree recursion)",
                        "a host function that loops by itself is the embedder's code and outside the property",
+                       "C07_every_inflight_call_is_watched is about the model of CloseModuleOnCanceledOrTimeout (one goroutine per call, from entry to return); that the goroutine is scheduled "
+                       "(fairness) is assumed, and measured by the sibling schedules",
                        "host <-> guest recursion: the host callback propagates the error of the nested call by panicking (as wasi proc_exit does); nesting levels after the cause are counted from the "
                        "moment the cause has been delivered (cancel() / CloseWithExitCode returned, ctx.Done() observed), so a correct engine shows 0 or 1"]
     proofs_ok = ck.proofs()
@@ -687,29 +952,42 @@ def run(tier, seed):
     th.start()
     th2 = threading.Thread(target=lambda: out.setdefault("h", host_behavioural(ck, binp, tier, dist)))
     th2.start()
+    th3 = threading.Thread(target=lambda: out.setdefault("i", imported(ck, binp, tier, dist)))
+    th3.start()
     entries, pc = entry_probe(ck, binp, dist)
     sc = structural(ck, binp, seed, 60 if quick else 1200, dist)
     verdict = host_structural(ck, sc, entries, dist)
     wc = closed_word(ck, binp, seed, 40 if quick else 600, dist)
-    th.join(); th2.join()
+    th.join(); th2.join(); th3.join()
     bc = out.get("b") or []
     hc = out.get("h") or []
+    ic = out.get("i") or []
+    # the sibling schedules are timing-sensitive in one respect only (a deadline must not pass before the schedule is set up):
+    # they run once the batches above have released the machine
+    sb = siblings(ck, binp, tier, dist)
     host_model_vs_behaviour(ck, verdict, hc, dist)
-    ck.cases = len(sc) * 3 + len(bc) + len(wc) + len(pc) + len(hc) + dist.get("host_structure", {}).get("graphs", 0) * len(HSITS)
+    ck.cases = (len(sc) * 3 + len(bc) + len(wc) + len(pc) + len(hc) + dist.get("host_structure", {}).get("graphs", 0) * len(HSITS) + len(ic) + len(sb) +
+                dist.get("siblings", {}).get("model_schedules", 0))
     ck.distinct = (len(set(c["wasm"] for c in sc)) + len(set((d["engine"], d["shape"], d["cause"], d["arrival"]) for d in bc)) + len(set(json.dumps(c["steps"]) for c in wc)) +
-                   len(set((c["engine"], c["sit"], c["code"]) for c in pc)) + len(set((d["engine"], d["shape"], d["cause"], d["arrival"]) for d in hc)))
+                   len(set((c["engine"], c["sit"], c["code"]) for c in pc)) + len(set((d["engine"], d["shape"], d["cause"], d["arrival"]) for d in hc)) +
+                   len(set((d["engine"], d["shape"], d["cause"]) for d in ic)) + len(set((d["engine"], d["shape"], d["ctx"], d["topology"], d["cause"], d["spin"]) for d in sb)))
     ck.samples = ([dict(src=c["src"], ast=(c.get("ast") or "")[:160], interp_trace=traces(c["interp"])) for c in sc[7:9]] +
                   [dict(engine=d["engine"], shape=d["shape"], cause=d["cause"], arrival=d["arrival"], outcome=d["class"], closed=d["closed"], latency_ms=d.get("latency_ms")) for d in bc[1:4]] +
                   [dict(kind=c["kind"], steps=c["steps"], obs=c["obs"]) for c in wc[:1]] +
                   [dict(engine=d["engine"], shape=d["shape"], cause=d["cause"], arrival=d["arrival"], outcome=d["class"], closed=d["closed"], levels_after_cause=d["levels_after"],
                         max_nesting=d["max_level"]) for d in hc[2:4]] +
-                  [dict(engine=c["engine"], situation=SIT_NAMES[c["sit"]], ran_guest_code=c["ran"], exit=c["exit"], closed=c["closed"]) for c in pc[:1]])
+                  [dict(engine=c["engine"], situation=SIT_NAMES[c["sit"]], ran_guest_code=c["ran"], exit=c["exit"], closed=c["closed"]) for c in pc[:1]] +
+                  [dict(engine=d["engine"], shape=d["shape"], ctx=d["ctx"], topology=d["topology"], cause=d["cause"], calls=[(c["kind"], c["ctx"], c["class"]) for c in d["calls"]],
+                        closed=d["closed"]) for d in sb[:1]] +
+                  [dict(engine=d["engine"], shape=d["shape"], cause=d["cause"], outcome=d["class"], closed=d["closed"]) for d in ic[:1]])
     ck.extra["rule"] = ("structural: hand-written cycle shapes + random structured programs (own AST generator: loops, br/br_if/br_table, calls, call_indirect, return_call, "
                         "return_call_indirect, imports) + programs of the common generator, each compiled by both engines through the public API, 3 graphs per program; "
                         "behavioural: shapes x causes x arrival moments x 2 engines; closed word: cause sequences on a real instance; entry probe: 6 situations x 2 engines; "
                         "host structure: every engine graph with host nodes and the probed entry checks x 4 situations (hcheck inside Coq + independent host-cycle oracle); "
-                        "host recursion: guest->host->guest shapes x causes x arrival moments x 2 engines. A case is non-trivial when it is a distinct "
-                        "program / (engine, shape, cause, arrival) / cause sequence / (engine, situation, code)")
+                        "host recursion: guest->host->guest shapes x causes x arrival moments x 2 engines; siblings: 2-3 concurrent calls on one / two instances x context relation x "
+                        "shape x cause x 2 engines, each executed schedule also run through Watcher.v; imported loops: depth 0..2 x call / call_indirect / tail cycle x cause x 2 engines. "
+                        "A case is non-trivial when it is a distinct program / (engine, shape, cause, arrival) / cause sequence / (engine, situation, code) / "
+                        "(engine, shape, context relation, topology, cause)")
     if not proofs_ok and not any(not v.get("no_input") for v in ck.violations):
         ck.violation("proof-broken", {"kind": "proof-broken"}, getattr(ck, "proof_failure", {}), no_input=True)
     return ck.finish()
